@@ -133,7 +133,7 @@ CHECKS["C08"] = {
 CHECKS["C16"] = {
     "text": "Theorems: has_like_terms is invariant under the congruence generated by commutativity/associativity of + (any tree) and is true exactly when two positions of the term list carry one key or two constants hang under +/-; terms_are_like is reflexive, symmetric and transitive; make_term round-trips through get_term_ex and has the value c*v^e; get_term_ex of the parsed text of a natural-order term returns what was written (via parser completeness); the factor table of a positive integer has exactly its divisors as keys with k*v = n. Correspondence/oracle: all permutations and random groupings of generated sums, all natural-order triples, factor(n) for n up to 3000 (20000), predicates on random expressions, has_like_terms vs the model.",
     "design_ref": "DESIGN.md 3/C16",
-    "note": COMMON_NOTE + "Source tie: Gen/PySrcLike.lean is regenerated on every run from the live util.py (is_add_or_sub / get_terms / terms_are_like / has_like_terms, template-checked, rendered as the scan loops they spell out) and Src_get_terms / Src_terms_are_like / Src_has_like_terms prove the model equal to it; Src_get_term_ex does the same for get_term_ex (statement-by-statement translation). get_term stays hand-written (correspondence only). get_sub_terms is modelled and proved never to raise on non-equation trees (C16_getSubTerms_never_raises); is_simple_term / is_preferred_term_form iterate over its result and their not raising is decided by the oracle only.",
+    "note": COMMON_NOTE + "Source tie: Gen/PySrcLike.lean is regenerated on every run from the live util.py (is_add_or_sub / make_term / get_terms / terms_are_like / has_like_terms, template-checked, rendered as the scan loops they spell out) and Src_make_term / Src_get_terms / Src_terms_are_like / Src_has_like_terms prove the model equal to it; Src_get_term_ex does the same for get_term_ex (statement-by-statement translation). get_term stays hand-written (correspondence only). get_sub_terms is modelled and proved never to raise on non-equation trees (C16_getSubTerms_never_raises); is_simple_term / is_preferred_term_form iterate over its result and their not raising is decided by the oracle only.",
     "technique": "Lean 4 proof over term-analysis model (terms_are_like / has_like_terms / get_term_ex regenerated from source and proved equal to the model) + permutation/grouping oracle + differential correspondence",
 }
 CHECKS["C17"] = {
